@@ -5,12 +5,15 @@ import os
 import re
 
 from vlib import sched, sigreal
-from vlib.sigcheck import (PLANS, SGN, SIGINT, SIGTSTP, TRUSTED, accept_all, analyse, explore_sig, gen_case, offenders, pack,
-                           plan_signals, project_sig)
+from vlib.sigcheck import (PLANS, SGN, SIGINT, SIGTSTP, TRUSTED, accept_all, analyse, detect_worker_form, explore_sig,
+                           gen_case, offenders, pack, plan_signals, project_sig)
 
 
-def assumptions(variant):
-    return ["POSIX semantics of pthread_mutex_lock/unlock, pthread_cond_wait/signal (spurious wake-ups allowed) and "
+def assumptions(variant, wform="blind"):
+    return ["form of the worker's first state write in the checked tree, detected by behaviour on the minimal "
+            "lost-cancel schedule: %s (blind = `a->state = DSH_RCMD` as pinned, defect F20-LOSTCANCEL; guarded = the "
+            "repair; model, acceptor and theorems cover both)" % wform,
+            "POSIX semantics of pthread_mutex_lock/unlock, pthread_cond_wait/signal (spurious wake-ups allowed) and "
             "sigwait on blocked signals as modelled; a blocked standard signal is pending at most once (runs in which "
             "the harness would queue a second instance are outside the domain: by POSIX they equal the runs with one "
             "signal less)",
@@ -58,7 +61,8 @@ def corpus_cases():
     opts = {"labels": 1, "ct": 0, "ut": 0, "tstates": 1, "batch": 0}
     base = {"inline": 1, "budget": 1500, "yield": "fan,thd,sig", "strategy": "list"}
     return [
-        # lost cancellation: ^C ^Z while worker 0 is created but has not yet marked itself RCMD; it then runs
+        # ^C ^Z while worker 0 is created but has not yet marked itself RCMD: the blind worker (pinned source) then runs
+        # all the same (F20-LOSTCANCEL), the repaired one goes to its epilogue; also the worker-form probe
         dict(base, fanout=1, hosts=one, opts=opts,
              choices="D D D D D D i2 Z Z Z i20 Z Z Z W0".split()),
         # all remaining slots canceled while the dispatcher waits for room: it must break out and drain
@@ -76,7 +80,7 @@ def base_key(case):
     return json.dumps([case["fanout"], case["hosts"], sorted((case.get("opts") or {}).items())], sort_keys=True)
 
 
-def replay_case(ctx, exe, variant):
+def replay_case(ctx, exe, variant, wform):
     rp = json.load(open(ctx.replay))
     case = (rp.get("case") or {}).get("case") or rp.get("case")
     if not isinstance(case, dict) or "hosts" not in case:
@@ -96,9 +100,9 @@ def replay_case(ctx, exe, variant):
     _, bf = offenders(b, None)
     offs, facts = offenders(res, (b["M"], bf["A"]) if b["M"] and "A" in bf else None)
     if res["crash"] is None and not res["bug"] and facts["domain"]:
-        bad = accept_all(ctx, [project_sig(res, variant)])[0]
+        bad = accept_all(ctx, [project_sig(res, variant, wform)])[0]
         if bad is not None:
-            ctx.disagreement("Signals LTS (%s variant) vs dsh.c" % variant,
+            ctx.disagreement("Signals LTS (%s, %s worker) vs dsh.c" % (variant, wform),
                              "projected trace line %d `%s`: %s" % (bad[0], bad[1], bad[2]), pack(res, facts))
     ctx.log("replay: monitors %s episodes %s" % (res["M"], facts.get("episodes")))
     for sig, what in offs:
@@ -132,20 +136,27 @@ def run(ctx, PROPS, LEVEL):
     dist = {"plans": {}, "episodes": {}, "status": {}, "rejects": 0, "out_of_domain": 0, "dfs": [], "positions": [],
             "yield": {}, "N": {}, "batch": {"0": 0, "1": 0}}
     cov["distribution"] = dist
-    variant = None
+    variant, wform = None, "blind"
     if not (exe_san and exe):
-        return variant, cov
+        return variant, wform, cov
     variant, probe = sched.detect_variant(exe, ctx.scratch)
     if variant is None:
         ctx.disagreement("fan variant probe", "the dispatcher neither re-waits nor creates after a spurious wake-up")
         variant = "while"
     cov["source_wait_construct"] = variant
-    ctx.log("wait-for-room construct of the tree (by behaviour): %s" % variant)
+    wform, wprobe = detect_worker_form(exe, ctx.scratch)
+    if wform is None:
+        ctx.disagreement("worker form probe", "after ^C ^Z canceled its slot the created worker neither connects (blind "
+                         "write) nor goes to its epilogue (guarded write): " +
+                         " | ".join(" ".join(ev) for _, ev in wprobe["steps"])[-700:])
+        wform = "blind"
+    cov["source_worker_state_write"] = wform
+    ctx.log("wait-for-room construct of the tree (by behaviour): %s; worker's first state write: %s" % (variant, wform))
     if ctx.replay:
-        replay_case(ctx, exe_san, variant)
+        replay_case(ctx, exe_san, variant, wform)
         cov["evaluations"] = 1
         cov["rule"] = "replay of one recorded schedule"
-        return variant, cov
+        return variant, wform, cov
 
     rng = ctx.rng
     distinct = set()
@@ -177,14 +188,14 @@ def run(ctx, PROPS, LEVEL):
                 ok = False
                 dist["out_of_domain"] += 1
             doms.append(ok)
-        batches = [project_sig(r, variant) if ok else None for r, ok in zip(results, doms)]
+        batches = [project_sig(r, variant, wform) if ok else None for r, ok in zip(results, doms)]
         idx = [i for i, b in enumerate(batches) if b is not None]
         verdicts = accept_all(ctx, [batches[i] for i in idx]) if idx else []
         for i, bad in zip(idx, verdicts):
             if bad is not None:
                 dist["rejects"] += 1
                 if dist["rejects"] <= 3:
-                    ctx.disagreement("Signals LTS (%s variant) vs dsh.c" % variant,
+                    ctx.disagreement("Signals LTS (%s, %s worker) vs dsh.c" % (variant, wform),
                                      "projected trace line %d `%s`: %s" % (bad[0], bad[1], bad[2]), pack(results[i]))
         for r, b in zip(results, batches):
             cov["evaluations"] += 1
@@ -371,4 +382,4 @@ def run(ctx, PROPS, LEVEL):
     cov["distinct_nontrivial"] = len(distinct)
     cov["traces_validated_against_impl"] = cov["evaluations"] - dist["out_of_domain"]
     cov["offending_runs"] = dict(seen)
-    return variant, cov
+    return variant, wform, cov
